@@ -338,9 +338,10 @@ End Total.
 (* ---------- definitions and programs ---------- *)
 Lemma compile_defs_total : forall p defs ul front back,
   (forall d, In d defs -> def_tyguard p (cdata_of p) (ccodata_of p) d = true) ->
-  exists res, compile_defs false defs (ccodata_of p) ul front back = Ok res.
+  exists res, compile_defs false false defs (ccodata_of p) ul front back = Ok res.
 Proof.
   intros p. induction defs as [|d r IH]; intros ul front back Hg; simpl; [eauto|].
+  unfold compile_main_group; cbn [andb].
   pose proof (Hg d (or_introl eq_refl)) as Hd. unfold def_tyguard in Hd.
   apply andb_prop in Hd. destruct Hd as [Hd Hret].
   apply andb_prop in Hd. destruct Hd as [_ Htg].
@@ -367,7 +368,8 @@ Qed.
 
 Theorem fun2core_total_guarded : forall p, prog_tyguard p = true -> exists c, compile_prog p = Ok c.
 Proof.
-  intros p Hg. unfold prog_tyguard in Hg. apply andb_prop in Hg. destruct Hg as [_ Hg]. rewrite forallb_forall in Hg.
-  unfold compile_prog, compile_prog_gen. fold (ccodata_of p).
+  intros p Hg. unfold prog_tyguard in Hg. apply andb_prop in Hg. destruct Hg as [Hd Hg]. rewrite forallb_forall in Hg.
+  apply andb_prop in Hd. destruct Hd as [_ Hncm]. apply negb_true_iff in Hncm.
+  unfold compile_prog, compile_prog_gen. fold (ccodata_of p). rewrite Hncm.
   destruct (compile_defs_total p (fcpdefs p) (map fdname (fcpdefs p)) [] [] Hg) as [res E]. rewrite E. simpl. eauto.
 Qed.
